@@ -115,6 +115,33 @@ def used_after_loop_sweep(prog):
     return {"constructors": n, "loop_values_used_after_the_loop": out[:200], "count": len(out)}
 
 
+def write_only_attribute_sweep(prog):
+    """attributes of self that are assigned but never read anywhere in the package, while an attribute with a
+    similar name is read: a reset or an update that goes to a misspelt name has no effect"""
+    import difflib
+    read, written = {}, {}
+    for f in prog.all_functions():
+        for n in ast.walk(f.node):
+            if isinstance(n, ast.Attribute):
+                if isinstance(n.ctx, ast.Store):
+                    if isinstance(n.value, ast.Name) and n.value.id == "self":
+                        written.setdefault(n.attr, []).append(f.loc(n))
+                else:
+                    read.setdefault(n.attr, 0)
+                    read[n.attr] += 1
+            elif isinstance(n, ast.Constant) and isinstance(n.value, str) and n.value.isidentifier():
+                read.setdefault(n.value, 0)      # getattr/hasattr/__dict__ by name
+                read[n.value] += 1
+    out = []
+    for a, locs in sorted(written.items()):
+        if a in read:
+            continue
+        near = difflib.get_close_matches(a, list(read), n=1, cutoff=0.85)
+        if near:
+            out.append({"attribute": a, "assigned_at": locs[:3], "similar_attribute_that_is_read": near[0]})
+    return {"attributes_assigned": len(written), "write_only_with_a_near_namesake": out[:100], "count": len(out)}
+
+
 def calculator_units_sweep(prog):
     """classes anywhere in the package that keep a Hamiltonian: converting reads and their protection"""
     from . import unitflow
@@ -143,6 +170,7 @@ SWEEPS = {
     "C05": [("raw_unit_switch_calls_package_wide", unit_switch_sweep),
             ("typed_units_managed_reads_package_wide", managed_read_sweep)],
     "C08": [("isinstance_members_package_wide", isinstance_sweep)],
+    "C13": [("write_only_attributes_package_wide", write_only_attribute_sweep)],
     "C02": [("converting_reads_of_classes_keeping_a_hamiltonian_outside_qm", calculator_units_sweep)],
     "C01": [("undefined_self_attributes_package_wide", attribute_sweep),
             ("calls_with_wrong_arguments_package_wide", arity_sweep)],
